@@ -6,20 +6,36 @@ from tools.harness.common import DIALECTS
 ID = 'C17'
 TARGETS = ['MindsVerif.Props.C17']
 THEOREMS = ['MindsVerif.Props.C17.' + n for n in (
-    'C17_wrapper', 'C17_never_raises_iff', 'C17_without_fallback', 'C17_own_tables', 'C17_partial',
+    # T17.1 wrapper
+    'C17_wrapper', 'C17_never_raises_iff', 'C17_without_fallback',
+    # T17.2 own code: generic, and for the live tables
+    'C17_own_tables', 'C17_repaired_clean', 'C17_repaired_own_tables', 'C17_review_live_tables', 'C17_review_live_own_tables',
     'C17_cast_ok', 'C17_param_ok', 'C17_unop_iff', 'C17_table_position', 'C17_create_table_ok', 'C17_insert_dup_iff',
-    'C17_no_mutation', 'C17_fixed_constructs', 'C17_fixed_cast_fallback', 'C17_fixed_serial', 'C17_fixed_join_type',
-    'C17_witness_tuple_operand', 'C17_witness_insert_dup', 'C17_witness_pg_backtick', 'C17_pg_scanner_identity',
-    'C17_repaired_clean', 'C17_repaired_own_tables', 'C17_partial_repaired', 'C17_repaired_witnesses', 'C17_full_false', 'pins', 'core_types')]
+    # T17.3 mutation
+    'C17_no_mutation',
+    # the property: live tables, exactness, generic forms, refutation of the unconditional statement
+    'C17_review_live', 'C17_live_exact', 'C17_exact', 'C17_partial', 'C17_partial_repaired', 'C17_full_false',
+    # repaired constructs on the live tables; regression theorems about the OLD tables; postgres scanner
+    'C17_fixed_constructs', 'C17_fixed_cast_fallback', 'C17_fixed_serial', 'C17_fixed_join_type', 'C17_repaired_witnesses',
+    'C17_regression_tuple_operand', 'C17_regression_insert_dup', 'C17_witness_pg_backtick', 'C17_live_pg', 'C17_pg_scanner_identity',
+    'pins', 'core_types')]
 ASSUME = [
-    'the theorems are about the hand models Model/Fallback.lean (wrapper, own-table exception classes, prepare_create_table column loop); '
+    'the theorems are about the hand models of Model/Fallback.lean (wrapper incl. the postgres back-tick scanner, own-code exception '
+    'classes of get_query / prepare_* / to_table / to_expression / to_function / get_type, the column loop of prepare_create_table); '
     'tie = this run: wrapper correspondence (fallback-on result predicted from the fallback-off behaviour and str(ast)), own-site '
-    'exception correspondence in both directions, column-state correspondence, and the tables regenerated from the live module',
-    'what SQLAlchemy itself raises (function arities, non-string table names, type constructor arguments, compile-time errors) is NOT '
-    'in any theorem: hypothesis `saQuiet` of C17_partial; covered only by the impl-level probe of this run',
-    'str(ast_query) (the fallback printer) is an input of the wrapper model: that it does not raise is hypothesis `printerTotal`; probed',
+    'exception correspondence in both directions, column-state correspondence, the tables and three probed behaviours '
+    '(tupleIsList, dupExc, pgKeepsLiteral) regenerated from the live module',
+    'what SQLAlchemy itself raises (function arities, names, type constructor arguments, compile-time errors) is NOT in any theorem: '
+    'hypothesis `saQuiet` of C17_review_live / C17_partial; C17_live_exact shows it is exactly one of the two remaining failure modes; '
+    'covered only by the impl-level probe of this run (open finding: VARBINARY without length on MySQL, third-party)',
+    'str(ast_query) (the fallback printer) is an input of the wrapper model: that it returns is hypothesis `printerTotal`; probed',
+    '`shaped` (hypothesis of the live-table theorems) is an invariant of PARSER output, not of the renderer: evaluated by the driver on '
+    'every parsed tree of the streams (obligation assume:parser-output-shaped)',
+    'no-mutation beyond the modelled column loop rests on the pinned static scan (no attribute store on a non-self base other than '
+    'the two on SQLAlchemy elements, no write through an alias of a parameter) and the deep snapshot oracle of the probe',
     'Python str.upper()/lower() and `\\d` are modelled for ASCII; exception classes are compared up to isinstance of the two caught bases',
-    'reading: "the tree\'s own SQL string" = str(ast_query) exactly; the postgres back-tick stripping is reported as a finding',
+    'reading: "the tree\'s own SQL string" = str(ast_query); for postgresql without back-tick IDENTIFIER quotes (back-ticks inside '
+    'string literals must be kept: checked against an independent scanner)',
 ]
 
 RD = ['mysql', 'postgresql', 'postgres', 'sqlite', 'mssql', 'oracle', 'Snowflake']
@@ -30,7 +46,7 @@ UNMODELLED_OWN = [
     ('TypeError', 'to_expression', r'takes no arguments|positional argument|unexpected keyword|missing \d+ required'),
     ('TypeError', 'to_function', r''),
     ('TypeError', 'prepare_create_table', r'takes no arguments|positional argument|unexpected keyword'),
-    # guards that translate a SQLAlchemy signature / naming failure into NotImplementedError (fixes/C17_2, 4, 6):
+    # guards that translate a SQLAlchemy signature / naming failure into NotImplementedError:
     # they belong to "SQLAlchemy's part" of the model (`saQuiet`), wherever they are raised
     ('NotImplementedError', r'op|to_function', r'^Function '),
     ('NotImplementedError', r'to_expression|prepare_create_table', r'^Type '),
@@ -848,9 +864,11 @@ def run(chk):
 
     for (d, text, kind0, v0, opaque, tags), o in list(zip(meta_r, out_r))[:3]:
         chk.samples.append(dict(dialect=d, text=text[:200], model=o, impl=('raise ' + type(v0).__name__) if kind0 == 'raise' else 'returns'))
-    chk.samples.append(dict(theorem='C17_wrapper: ∀ inner printer fb dn, getExecParams inner printer fb dn = (match inner with | ret r => rendering r '
-                                    '| raise e => if caught e ∧ fb then (match printer with | ret s => fallback (fallbackText dn s) | raise e\' => raised e\') else raised e)'))
-    chk.samples.append(dict(theorem='C17_own_tables: ∀ tables w ctx t, clean tables w ctx t = true → saRaises tables w ctx t ∈ {none, some sa, some notImpl}'))
+    chk.samples.append(dict(theorem='C17_never_raises_iff: ∀ inner printer dn kl, (getExecParams inner printer true dn kl).isRaised = false ↔ '
+                                    '(match inner with | ret _ => True | raise e => e.caught ∧ ∃ s, printer = ret s)'))
+    chk.samples.append(dict(theorem='C17_review_live_own_tables: ∀ w ctx t, shaped G w ctx t = true → saRaises G w ctx t ∈ {none, some sa, some notImpl}  (G = live tables)'))
+    chk.samples.append(dict(theorem='C17_live_exact: ∀ w t saPart printer dn, shaped G w stmt t → ((getExecParams (innerOf G w t saPart) printer true dn).isRaised = true ↔ '
+                                    '(saRaises G w stmt t = none ∧ saQuiet saPart = false) ∨ (inner raised a caught class ∧ printerTotal printer = false))'))
     chk.samples.append(dict(theorem='C17_no_mutation: ∀ tables cols, (prepareCols tables cols).1 = cols'))
     return chk.finish(assumptions=ASSUME, extra=dict(impl_probe=dict(distribution=dist, expr_coverage=_cov), notes=chk.notes[:20]))
 
